@@ -114,6 +114,9 @@ pub struct LoopSim {
     classic_since: Option<u64>,
     last_ack_rx: u64,
     last_ka: Vec<u64>,
+    /// digests of recent client-origin frames and the link they left on: a second copy on another link is a probe
+    /// duplicate, which only a stall-gated link receives -- evidence that the guard engaged for real
+    seen_digs: std::collections::HashMap<u64, usize>,
     c: std::collections::HashMap<&'static str, u64>,
 }
 
@@ -154,7 +157,7 @@ impl LoopSim {
             rx_seqs: Default::default(), rx_count: 0, last_reply_at: vec![], cur_addr: vec![],
             next_seq: 5000, pkt_ctr: 0, client_idx: 0, steps_done: 0, steps_total: 3000, victim_down_at: None,
             victim_repaired: false, timeout_ms: 5000, idle_left: 0, next_amnesia: 0, refail: None, refail_at: None, classic_since: None, last_ack_rx: 0, last_ka: vec![],
-            c: Default::default(),
+            seen_digs: Default::default(), c: Default::default(),
         }
     }
 
@@ -335,6 +338,18 @@ impl LoopSim {
         let mut buf = [0u8; 2048];
         while let Ok((k, a)) = self.receiver.recv_from(&mut buf) {
             let l = self.link_of(&a);
+            if l < self.n && cls_of(&buf[..k]) == "data" {
+                let d = dig(&buf[..k]) as u64;
+                match self.seen_digs.get(&d) {
+                    Some(&other) if other != l => self.bump("probe_duplicates_on_gated_links"),
+                    _ => {
+                        if self.seen_digs.len() > 20_000 {
+                            self.seen_digs.clear();
+                        }
+                        self.seen_digs.insert(d, l);
+                    }
+                }
+            }
             if l < self.n && cls_of(&buf[..k]) == "ka" {
                 let prev = self.last_ka[l];
                 if prev != 0 && self.classic_since.is_some_and(|t| t < prev) && self.last_ack_rx < prev {
@@ -418,6 +433,7 @@ impl Engine for LoopSim {
         self.next_amnesia = T0 + 8_000;
         self.last_ack_rx = 0;
         self.last_ka = vec![0; self.n];
+        self.seen_digs.clear();
         self.config = srtla_send::DynamicConfig::new();
         if cfg.get("classic").and_then(Value::as_bool).unwrap_or(false) {
             self.config.set_mode(SchedulingMode::Classic);
@@ -678,9 +694,14 @@ impl Engine for LoopSim {
                 _ => json!({"ev": "SetCfg", "guard": rng.random_range(0..3) != 0}),
             });
         }
-        let adv = if outage { 600 } else { 420 };
+        // right after the victim's path went down the stream is dense for a few seconds, so that the victim holds a
+        // real backlog when its delivery proof goes stale (stall guard / silence pull engage, probe copies appear)
+        let dense = outage && self.victim_down_at.is_some_and(|t0| now < t0 + 2600) && !self.victim_repaired;
+        let adv = if dense { 450 } else if outage { 600 } else { 420 };
         if r < adv {
-            let d = if outage {
+            let d = if dense {
+                rng.random_range(1..6)
+            } else if outage {
                 match rng.random_range(0..6) {
                     0 => rng.random_range(1..6),
                     1 | 2 => rng.random_range(20..120),
